@@ -39,8 +39,8 @@ var guardTable = map[string]string{
 	"reservoir/cache.cacheJanitor.running":        "confined:(*reservoir/cache.cacheJanitor).start,(*reservoir/cache.cacheJanitor).stop",                   // lifecycle flag, owner-serial (constructor / Destroy)
 	"reservoir/config.ConfigSubscriber.unsubs":    "confined:(*reservoir/config.ConfigSubscriber).Add,(*reservoir/config.ConfigSubscriber).UnsubscribeAll", // owner-confined: Add in constructors, UnsubscribeAll in Destroy/stop
 	"reservoir/config.ConfigProp.requiresRestart": "writers:(*reservoir/config.ConfigProp).SetRequiresRestart",                                             // written only while the Config is being built (NewDefault/load), read-only afterwards
-	"reservoir/utils/event.Event.subscribers":     "guard:F:reservoir/utils/event.Event.mu",
-	"reservoir/utils/event.Event.nextID":          "guard:F:reservoir/utils/event.Event.mu",
+	"reservoir/utils/event.Event.subscribers":     "guard:G:reservoir/utils/event.mu",
+	"reservoir/utils/event.Event.nextID":          "guard:G:reservoir/utils/event.mu",
 }
 
 var sharedTypes = []string{
